@@ -1,5 +1,5 @@
 //! C05: DSU connectivity / sizes / representatives against a naive partition; depth bound via Debug rendering.
-//! input encoding: "n;op,op,..." with op = u<a>-<b> | r<n> | c<a>-<b>
+//! input encoding: "n;op,op,..." with op = u<a>-<b> | r<n> | k (clone) | K<m> (clone_from into a DSU of size m)
 use crate::{guarded, Cex, Lcg, Outcome};
 use rlib_dsu::DSU;
 
@@ -48,6 +48,18 @@ fn run_ops(n: usize, ops: &[(char, usize, usize)], every_step: bool) -> Option<(
                     if cur_n >= 2 {
                         orig.un(0, cur_n - 1);
                         orig.reset(1);
+                    }
+                }
+                'K' => {
+                    // the assigning form of clone: the destination is an older structure of another size with unions of its own
+                    let mut dst = DSU::new(a);
+                    if a >= 2 {
+                        dst.un(0, a - 1);
+                    }
+                    dst.clone_from(&d);
+                    let mut orig = std::mem::replace(&mut d, dst);
+                    if cur_n >= 2 {
+                        orig.un(0, cur_n - 1);
                     }
                 }
                 _ => {}
@@ -150,6 +162,22 @@ pub fn run(seed: u64, replay: Option<String>) -> Outcome {
             }
         }
     }
+    // clone / clone_from in the middle of a history: every destination size, unions before and after
+    for n in 2..=5usize {
+        for m in 0..=6usize {
+            for which in ['k', 'K'] {
+                let mut ops: Vec<(char, usize, usize)> = vec![('u', 0, 1)];
+                if n >= 4 { ops.push(('u', 2, 3)); }
+                ops.push((which, m, 0));
+                ops.push(('u', 1, n - 1));
+                ops.push(('u', 0, n / 2));
+                cases += 1;
+                if let Some((o, e)) = run_ops(n, &ops, true).or_else(|| run_ops(n, &ops, false)) {
+                    return Outcome { cex: Some(Cex { input: enc(n, &ops), observed: o, expected: e }), cases };
+                }
+            }
+        }
+    }
     // random histories with resets, and depth on union-only histories
     let mut rng = Lcg(seed ^ 0x5eed);
     for _ in 0..400 {
@@ -159,6 +187,8 @@ pub fn run(seed: u64, replay: Option<String>) -> Outcome {
         for _ in 0..10 {
             if rng.below(10) == 0 {
                 ops.push(('k', 0, 0));
+            } else if rng.below(10) == 0 {
+                ops.push(('K', [cur, cur + 3, cur.saturating_sub(1), 0][rng.below(4) as usize], 0));
             } else if rng.below(8) == 0 {
                 cur = 1 + rng.below(8) as usize;
                 ops.push(('r', cur, 0));
